@@ -31,21 +31,37 @@ type ZFile struct {
 	GoModKind string // how the go.mod text was built (coverage accounting)
 	Tag       string // what the generator intended with this file
 	Opened    int
+	ReadErr   error // when set, Open serves Data[:ReadErrAt] and then fails with this error
+	ReadErrAt int
+	LaterSz   int64 // when > 0, every Lstat after the first reports this size instead of Sz
+	Lstats    int
 }
 
-type zInfo struct{ f *ZFile }
+type zInfo struct {
+	f  *ZFile
+	sz int64
+}
 
 func (i zInfo) Name() string       { return path.Base(i.f.P) }
-func (i zInfo) Size() int64        { return i.f.Sz }
+func (i zInfo) Size() int64        { return i.sz }
 func (i zInfo) Mode() fs.FileMode  { return i.f.M }
 func (i zInfo) ModTime() time.Time { return time.Time{} }
 func (i zInfo) IsDir() bool        { return i.f.M.IsDir() }
 func (i zInfo) Sys() any           { return nil }
 
-func (f *ZFile) Path() string                { return f.P }
-func (f *ZFile) Lstat() (os.FileInfo, error) { return zInfo{f}, nil }
+func (f *ZFile) Path() string { return f.P }
+func (f *ZFile) Lstat() (os.FileInfo, error) {
+	f.Lstats++
+	if f.LaterSz > 0 && f.Lstats > 1 {
+		return zInfo{f, f.LaterSz}, nil
+	}
+	return zInfo{f, f.Sz}, nil
+}
 func (f *ZFile) Open() (io.ReadCloser, error) {
 	f.Opened++
+	if f.ReadErr != nil {
+		return io.NopCloser(io.MultiReader(bytes.NewReader(f.Data[:f.ReadErrAt]), zErrReader{f.ReadErr})), nil
+	}
 	if f.Zeros > 0 {
 		return io.NopCloser(io.LimitReader(zeroReader{}, f.Zeros)), nil
 	}
@@ -54,6 +70,10 @@ func (f *ZFile) Open() (io.ReadCloser, error) {
 
 // Content returns what Open serves (only for files without Zeros).
 func (f *ZFile) Content() []byte { return f.Data }
+
+type zErrReader struct{ err error }
+
+func (r zErrReader) Read([]byte) (int, error) { return 0, r.err }
 
 type zeroReader struct{}
 
@@ -98,6 +118,12 @@ var ZGoMods = []ZGoMod{
 	{"module example.com/m\n\ngo 1.24\n)(\n", "", "unparsable"},
 	{"module example.com/m\n\ngo 1.24 1.25\n", "", "unparsable"},
 	{"module example.com/m\n\ngo one.two\n", "", "unparsable"},
+	// a directive given twice is an error for the lenient reader too
+	{"module example.com/m\n\ngo 1.24\ngo 1.21\n", "", "unparsable"},
+	{"module example.com/m\n\ngo 1.21\n\ngo 1.24\n", "", "unparsable"},
+	{"module example.com/m\nmodule example.com/m\n\ngo 1.24\n", "", "unparsable"},
+	// (the lenient reader skips toolchain lines altogether, so a repeated one does not spoil the file)
+	{"module example.com/m\n\ngo 1.24\n\ntoolchain go1.24.0\ntoolchain go1.24.1\n", "1.24", "new"},
 	{"module example.com/m\ngo 1.24\nrequire (\n", "", "unparsable"},
 }
 
@@ -109,7 +135,7 @@ var zSafeDirs = []string{"", "", "", "b/", "b/c/", "x/y/z/", "internal/", "cmd/t
 var zSafeBases = []string{"a.go", "c.go", "main.go", "x_test.go", "foo.go", "README", "LICENSE", "LICENSE.md", "modules.txt", "vendor.go", "vendor",
 	"é.go", "\u212A.go", "ß.txt", "ss.txt", "σ", "ǆ", "ſ.go", "µ.go", "θ", "ª", "ж.go",
 	// letters whose case-folding orbit has three or more members (a one-step fold does not normalise them)
-	"ς.go", "Ω.go", "ω", "å.txt", "\u212B", "вход.go", "В", "ι.txt", "ϑ.go", "ǅ.txt", "ᲀ", "ϐ", "ϕ.go", "ϖ", "ϱ", "ϵ", "ẛ", "ᲈ", "日本語.txt", "go.mod.bak", ".hidden", ".gitignore", ".git", "-dash", "_",
+	"ς.go", "Ω.go", "ω", "å.txt", "\u212B", "вход.go", "В", "ι.txt", "ϑ.go", "ǅ.txt", "ᲀ", "ϐ", "ϕ.go", "ϖ", "ϱ", "ϵ", "ẛ", "ᲈ", "日本語.txt", "\uf9d0.txt", "\u0100", "\u4e00.go", "go.mod.bak", ".hidden", ".gitignore", ".git", "-dash", "_",
 	"dollar$", "at@", "plus+", "hash#", "excl!", "eq=", "caret^", "br[ack]et", "{brace}", "pa(ren)", "amp&", "pct%", "com,ma", "tilde~",
 	"sp ace.go", " lead", "con1", "com10", "conx", "x.con", "nul_", ".hg_archival.txt", "go.mod", "sum.golang.org"}
 
@@ -122,7 +148,9 @@ var zHostileBases = []string{"A.go", "C.go", "K.go", "k.go", "ẞ.txt", "SS.txt"
 	"foo~1.txt", "foo~1", "~1", "a..b", "..a", "emoji😀", "digit٣", "ⅷ", "\xff", "bad\xc3", "nul\x00x", "tab\tx", "nl\nx", "del\x7f", "\ufffd",
 	"²", "x\u200bx", "x\u00a0x",
 	// non-letter runes whose low byte is an allowed ASCII byte
-	"inv\u202efdp.exe", "a\u2028b", "p\u2029q", "\u2025", "x\u0323", "at\uff20", "dag\u2020", "f\u2061x", "e\u212e", "per\u2030", "int\u203d", "sp\u3000ace", "m\u205fs"}
+	"inv\u202efdp.exe", "a\u2028b", "p\u2029q", "\u2025", "x\u0323", "at\uff20", "dag\u2020", "f\u2061x", "e\u212e", "per\u2030", "int\u203d", "sp\u3000ace", "m\u205fs",
+	// non-letters that share their low 16 bits with a letter of the safe pool (and one letter that shares them with a non-letter)
+	"\U0001f9d0.txt", "\U000e0100", "x\U00010100", "\U00014e00.go", "\uf800", "\U0002f800.go"}
 var zWholePaths = []string{"", ".", "..", "../up", "a/", "/", "dir/", "a/./b", "../../x", "/go.mod", "./go.mod", "sub/../go.mod", "sub//go.mod"}
 
 // zModes for files that are not regular.
@@ -257,6 +285,7 @@ func ZList(r *rand.Rand, o ZOpts) (files []*ZFile, theme string) {
 			dirs = append(dirs, pick([]string{"B/", "b/C/", "É/", "K/", "\u212A/", "STRAẞE/", "Sub/", "Vendor/x/", "con/", "aux.d/", "x./", "q?/", "nul/", "a..b/", "e\u0301/"}, 1+r.IntN(2))...)
 		}
 		bases = append(bases, pick(zHostileBases, 1+r.IntN(4))...)
+		bases = append(bases, "e"+string(BoundaryRune(r))+".go", string(BoundaryRune(r)))
 	}
 	seen := map[string]bool{}
 	add := func(p, tag string) *ZFile {
